@@ -16,6 +16,7 @@ import GoNeat.Driver.ModNet
 import GoNeat.Driver.Sort
 import GoNeat.Driver.FastHand
 import GoNeat.Driver.GenRand
+import GoNeat.Driver.ExperimentEpoch
 
 namespace GoNeat.Driver
 def allOps : List (String × Handler) :=
@@ -36,4 +37,5 @@ def allOps : List (String × Handler) :=
   ++ sortOps
   ++ fastHandOps
   ++ genRandOps
+  ++ experimentEpochOps
 end GoNeat.Driver
